@@ -233,9 +233,26 @@ def run(ck):
     okm = len(rs) == 1 and is_this_field(rs[0].get("e"), IO + "::m_device")
     ck.ob("C11-O3", sitestr(dv), okm, "device() returns m_device", key="IODeviceSink::device")
     sinks_driven_through_the_list(ck)
+    flush_decision_matches_mode(ck)
     # the rotating sink keeps a device to flush: a rotation that fails must not leave the file closed
     from rules.rfs import Sink, reopened_after_close
     reopened_after_close(ck, Sink(ck), "C11-O3", "every later record, the fatal one included, is written to a closed device and the flush has nothing to flush")
+
+
+def flush_decision_matches_mode(ck):
+    """C11-O5: the flush of a fatal message is skipped when ownThreadIsRunning(); the pipeline runs in the caller's thread when the worker pointer is null.  The stop
+    must never expose "worker gone, thread still running" to other threads (rules/oth.mode_predicates_agree)."""
+    from rules.oth import mode_predicates_agree, resolve_roles, OT
+    F = ck.facts
+    ck.rule("C11-O5", "the stop of asynchronous logging never releases the hand-off mutex between clearing the worker pointer and the end of the thread: whenever the pipeline runs in the calling thread, "
+                      "ownThreadIsRunning() is false and a fatal message is flushed")
+    resolve_roles(F)
+    insts = sorted({f.cls for f in F.fn_all(OT + "::process") if f.d.get("inst")})
+    if not insts:
+        ck.ob("C11-O5", "(OwnThreadHandler)", True if ck.config == "nothread" else None, "no instantiation of OwnThreadHandler in this configuration (QTLOGGER_NO_THREAD): logging is always synchronous", key="resetOwnThread|mode-window")
+    for cls in insts:
+        tag = "OwnThreadHandler<%s>" % cls.split("<", 1)[1].rstrip(">").split("::")[-1]
+        mode_predicates_agree(ck, cls, tag, "C11-O5")
 
 
 def sinks_driven_through_the_list(ck):
